@@ -12,6 +12,7 @@ import (
 	"strings"
 
 	ipfslog "berty.tech/go-ipfs-log"
+	"berty.tech/go-ipfs-log/entry"
 	"berty.tech/go-ipfs-log/accesscontroller"
 	"berty.tech/go-ipfs-log/entry/sorting"
 	"berty.tech/go-ipfs-log/iface"
@@ -48,6 +49,8 @@ func (o Op) String() string {
 		return fmt.Sprintf("join(%d<-%d)", o.A, o.B)
 	case "setid":
 		return fmt.Sprintf("setid(%d,w%d)", o.A, o.B)
+	case "joinlast":
+		return fmt.Sprintf("join(%d<-newest %d of %d)", o.A, o.N, o.B)
 	case "appfixed":
 		return fmt.Sprintf("app(%d,\"dup\")", o.A)
 	case "appempty":
@@ -283,6 +286,28 @@ func (w *World) apply(o Op, st *Step) {
 		_, st.Err = w.Logs[o.A].Join(w.Logs[o.B], -1)
 		if st.Err == nil {
 			w.M.Join(w.ML[o.A], w.ML[o.B])
+		}
+	case "joinlast":
+		// an unbounded merge from a partial copy of replica B: a log opened over B's newest N entries only (what a
+		// length-limited load of B gives). Its oldest entries name predecessors it does not hold.
+		vals := w.Logs[o.B].Values().Slice()
+		n := o.N
+		if n > len(vals) {
+			n = len(vals)
+		}
+		part := vals[len(vals)-n:]
+		opts := &ipfslog.LogOptions{ID: "X", SortFn: w.Cfg.sortFn(), Entries: entry.NewOrderedMapFromEntries(part)}
+		if w.Cfg.SortFor != nil {
+			opts.SortFn = w.Cfg.SortFor(o.B)
+		}
+		pl := world.NewLog(w.St, w.WriterOf[o.B], opts)
+		_, st.Err = w.Logs[o.A].Join(pl, -1)
+		if st.Err == nil {
+			var us []int
+			for _, e := range part {
+				us = append(us, w.UID[e.GetHash().String()])
+			}
+			w.M.JoinSet(w.ML[o.A], us)
 		}
 	case "joinself":
 		_, st.Err = w.Logs[o.A].Join(w.Logs[o.A], -1)
